@@ -84,9 +84,9 @@ func suiteFpDet(c *Ctx) error {
 	r := NewRng(c.Seed)
 	var mu sync.Mutex
 	for i := 0; i < n; i++ {
-		p := GenProgram(r.Fork(), "genpkg", 5, 6)
+		p := GenProgramW(r.Fork(), "genpkg", 5, 6, true)
 		src := p.Render(nil, nil, 0)
-		other := GenProgram(r.Fork(), "genpkg", 5, 6).Render(nil, nil, 0)
+		other := GenProgramW(r.Fork(), "genpkg", 5, 6, true).Render(nil, nil, 0)
 		c.Res.Evaluations++
 		if strings.Contains(src, "for ") {
 			c.Res.Nontrivial++
@@ -225,6 +225,26 @@ func suiteRefactor(c *Ctx) error {
 			jobs = append(jobs, job{i, variant{fmt.Sprintf("rewrites-%d", rep+1), q.Render(nil, nil, 0), id, kinds}, base, src, fams})
 		}
 	}
+	// catalogue items on shapes outside the generator (defined types, methods, labels, closures)
+	for si, sp := range refactorSpecials(r.Fork()) {
+		sp := sp
+		base, _, err := fpOf(c.Work, fmt.Sprintf("rs%d_base", si), sp.base, ir.DefaultLiteralPolicy)
+		if err != nil {
+			return fmt.Errorf("special %s does not load: %v\n%s", sp.kind, err, sp.base)
+		}
+		fams := map[string]string{}
+		for name := range base {
+			fams[strings.SplitN(strings.TrimPrefix(name, "genmod."), "$", 2)[0]] = "special"
+		}
+		jobs = append(jobs, job{1000 + si, variant{"special:" + sp.kind, sp.variant, func(s string) string {
+			for from, to := range sp.rename {
+				if s == from || strings.HasSuffix(s, "."+from) || strings.HasSuffix(s, ")."+from) {
+					return strings.TrimSuffix(s, from) + to
+				}
+			}
+			return s
+		}, nil}, base, sp.base, fams})
+	}
 	var mu sync.Mutex
 	parallel(len(jobs), 12, func(ji int) {
 		j := jobs[ji]
@@ -243,6 +263,9 @@ func suiteRefactor(c *Ctx) error {
 				vn = j.v.nameOf(short[:i]) + short[i:]
 			}
 			vn = "genmod." + vn
+			if !strings.HasPrefix(name, "genmod.") { // methods: (*genmod.T).M
+				vn = j.v.nameOf(name)
+			}
 			g, ok := got[vn]
 			c.Res.Evaluations++
 			kind := j.v.name
